@@ -165,6 +165,28 @@ abcd           { return 4; }
 [a-z]+         { return 14; }
 %%
 ''',
+ # definitions are expanded inside parentheses, in flex's own mode and in POSIX mode alike (manual, "Patterns")
+ 'defs': r'''
+SIGN   plus|minus
+TAIL   ab|cd
+%%
+{SIGN}[0-9]+     { return 1; }
+x{TAIL}*y        { return 2; }
+{SIGN}           { return 3; }
+[a-z]+           { return 4; }
+%%
+''',
+ 'posixdefs': r'''
+%option posix-compat
+SIGN   plus|minus
+TAIL   ab|cd
+%%
+{SIGN}[0-9]+     { return 1; }
+x{TAIL}*y        { return 2; }
+{SIGN}           { return 3; }
+[a-z]+           { return 4; }
+%%
+''',
  # NUL shares the highest-numbered equivalence class with an ordinary character; 4 and 8 classes (powers of two: rest, newline, the letters, {z, NUL})
  'nulshare': r'''
 %%
